@@ -19,6 +19,8 @@
 (*                 the combined result: ready(), successful(), the id of   *)
 (*                 .exception (-1 = None), and .value as kind + int seq    *)
 (*                 (vk = "none" | "int" | "list" | "other").               *)
+(*   Reset(comb,n) (thorough tier only) the trace continues with a new,    *)
+(*                 independent combinator call; the machine starts afresh  *)
 (* gevent's AsyncResult is re-settable (set then set_exception keeps the   *)
 (* value, keeps successful() = True and ALSO sets .exception), hence the   *)
 (* four-component observation instead of get().                           *)
